@@ -12,6 +12,8 @@ import sys
 import time
 import traceback
 
+ROOT = os.path.dirname(os.path.dirname(os.path.abspath(__file__)))
+
 VERIF = os.path.dirname(os.path.dirname(os.path.abspath(__file__)))
 REPO = os.environ.get("VX_REPO", "/repo")
 
@@ -175,6 +177,9 @@ def _conc_task(pid, tier, seed, name, inputs):
         out["exc"] = ("RecursionError", "", "")
     except Exception as e:  # noqa: BLE001
         out["exc"] = (type(e).__name__, str(e)[:300], traceback.format_exc()[-1200:])
+        tb = traceback.extract_tb(e.__traceback__)
+        # an exception raised by the harness's own code (scenario / engine) is a harness error, never a violation
+        out["exc_in_harness"] = bool(tb) and tb[-1].filename.startswith(ROOT + os.sep) and not any("/kafe2/" in f.filename for f in tb)
     out["records"] = cx.records
     return out
 
@@ -500,6 +505,9 @@ def main(argv=None):
                 unreproduced.append("%s / %s: replay %s" % (c["scenario"], c["label"], st))
             continue
         hit = None
+        if res.get("exc_in_harness"):
+            harness_errors.append("scenario code raised %s: %s in %s\n%s" % (res["exc"][0], res["exc"][1], c["scenario"], res["exc"][2][-600:]))
+            continue
         if res["assumption_violated"]:
             pass
         elif c["kind"] == "exception":
@@ -545,6 +553,9 @@ def main(argv=None):
         st, res = conc.get((sc_.name, "{}"), ("missing", None))
         if st != "ok":
             harness_errors.append("concrete-only scenario %s: %s %s" % (sc_.name, st, str(res)[:200]))
+            continue
+        if res["exc"] is not None and res.get("exc_in_harness"):
+            harness_errors.append("scenario code raised %s: %s in %s\n%s" % (res["exc"][0], res["exc"][1], sc_.name, res["exc"][2][-600:]))
             continue
         if res["exc"] is not None:
             entry = dict(scenario=sc_.name, label="exception:%s" % res["exc"][0], what="unexpected %s: %s" % (res["exc"][0], res["exc"][1]), inputs={}, exact={}, via="concrete-only")
